@@ -112,6 +112,27 @@ theorem map_complete_zip (ns : List α) (p : List Bool) (hl : p.length = ns.leng
   rfl
 end
 
+/-! ### duplicate-freeness helpers (core has no `Nodup.map_on` / `Nodup.filter`) -/
+theorem nodup_map_on {β γ : Type} (f : β → γ) (l : List β) (hl : l.Nodup)
+    (hinj : ∀ x ∈ l, ∀ y ∈ l, f x = f y → x = y) : (l.map f).Nodup := by
+  rw [List.Nodup, List.pairwise_map]
+  refine List.Pairwise.imp_of_mem ?_ hl
+  intro a b ha hb hab heq
+  exact hab (hinj a ha b hb heq)
+
+theorem nodup_filter {β : Type} (p : β → Bool) (l : List β) (hl : l.Nodup) : (l.filter p).Nodup :=
+  List.Pairwise.sublist List.filter_sublist hl
+
+theorem nodup_zipIdx {β : Type} (l : List β) (k : Nat) : (l.zipIdx k).Nodup := by
+  induction l generalizing k with
+  | nil => simp
+  | cons a as ih =>
+    simp only [List.zipIdx_cons, List.nodup_cons]
+    refine ⟨?_, ih (k + 1)⟩
+    intro hm
+    have := List.mem_zipIdx hm
+    omega
+
 /-! ### sorted sets -/
 section
 set_option linter.unusedSectionVars false
